@@ -291,7 +291,7 @@ def _run_harness_shard(binary, cases, timeout_ms):
                 got += 1
         if got >= len(todo):
             break
-        if got > 0 and out[todo[got - 1]["id"]].get("outcome") == "timeout":
+        if got > 0 and out[todo[got - 1]["id"]].get("outcome") in ("timeout", "memory"):
             # the watchdog reported that case and ended the process: go on with the next one
             todo = todo[got:]
             continue
